@@ -115,6 +115,7 @@ type world struct {
 	jitter int64 // position of the slot-1 block after the day start (0 or tol: within tolerance)
 	last   int   // LastSlot of the model configuration
 	twin   bool  // the two writers' payloads of a slot have identical totals (and drops) but other flows
+	idle   bool  // slot 3 is a write-out of an idle interface: no flows, only drops (never in a twin world)
 	ifaces map[string]string
 	dayTS  map[int]int64
 }
@@ -132,6 +133,7 @@ func newWorld(seed uint64, c *caseT) *world {
 	w.jitter = []int64{0, w.tol}[rng.Intn(2)]
 	w.last = c.LastSlot
 	w.twin = seed%3 == 2 || rng.Intn(4) == 0
+	w.idle = !w.twin && rng.Intn(3) == 0
 	n := ifaceSets[rng.Intn(len(ifaceSets))]
 	w.ifaces["a"], w.ifaces["b"], w.ifaces["zz"] = n[0], n[1], n[2]
 	w.dayTS[1] = store.Day0 + 86400*int64(rng.Intn(10))
@@ -186,6 +188,9 @@ func ifaceIdx(m string) int {
 // every flow differs (other destination port): days with the same slots then carry the same metadata
 // suffix in their directory name whoever wrote them.
 func (w *world) flows(p, iface string, day, slot int) []store.Flow {
+	if w.idle && slot == 3 {
+		return nil
+	}
 	id := slot + 8*(day-1) + 16*ifaceIdx(iface)
 	if p == "D" && !w.twin {
 		id += 32
@@ -293,9 +298,11 @@ func (w *world) modelIface(name string) string {
 	return ""
 }
 
-func (w *world) label(iface string, day, slot int, match func(fl []store.Flow) bool) string {
+// (a block without flows is told apart by its drop count; drops < 0: not known, the first match counts)
+func (w *world) label(iface string, day, slot int, drops int64, match func(fl []store.Flow) bool) string {
 	for _, p := range []string{"S", "D"} {
-		if match(w.flows(p, iface, day, slot)) {
+		fl := w.flows(p, iface, day, slot)
+		if match(fl) && (len(fl) > 0 || drops < 0 || uint64(drops) == w.drops(p, iface, day, slot)) {
 			return p
 		}
 	}
@@ -369,7 +376,7 @@ func (w *world) observe(db, hash string, qcache map[string][]obsDay) observation
 						}
 						cols[c] = append([]byte(nil), got...)
 					}
-					lbl := w.label(mi, day, slot, func(fl []store.Flow) bool {
+					lbl := w.label(mi, day, slot, int64(d.BlockTraffic[bi].NumDrops), func(fl []store.Flow) bool {
 						want := store.Columns(store.FlowMap(fl))
 						for c := range want {
 							if !bytes.Equal(want[c], cols[c]) {
@@ -462,7 +469,7 @@ func (w *world) observe(db, hash string, qcache map[string][]obsDay) observation
 					anom("%s: query returns rows at %d which is no block of the case", mi, ts)
 					continue
 				}
-				lbl := w.label(mi, day, slot, func(fl []store.Flow) bool {
+				lbl := w.label(mi, day, slot, -1, func(fl []store.Flow) bool {
 					if len(fl) != len(byTS[ts]) {
 						return false
 					}
@@ -668,6 +675,22 @@ func (w *world) runCase(c *caseT, dir string) (*failure, []gotStep) {
 				name string
 				days []obsDay
 			}{{"block reader", g.Obs.Reader}, {"query", g.Obs.Query}} {
+				want := want
+				if v.name == "query" && w.idle {
+					// blocks without flows return no rows: the query cannot show them
+					want = []obsDay{}
+					for _, d := range toObs(exp.Dst) {
+						nd := obsDay{Iface: d.Iface, Day: d.Day, Blocks: []obsBlock{}}
+						for _, b := range d.Blocks {
+							if b.Slot != 3 {
+								nd.Blocks = append(nd.Blocks, b)
+							}
+						}
+						if len(nd.Blocks) > 0 {
+							want = append(want, nd)
+						}
+					}
+				}
 				if canon(v.days) != canon(want) {
 					ifc, day := firstDiff(v.days, want)
 					var pl *planT
@@ -744,7 +767,7 @@ func Replay(seed uint64, tmp string, verbose bool, in io.Reader, out io.Writer) 
 				plans[p.Plan+"/"+p.Src+"/"+p.Dst]++
 			}
 		}
-		conc := map[string]any{"tolerance_s": w.tol, "first_block_offset_s": w.jitter, "last_slot": w.last, "twin_payloads": w.twin, "slot_positions": "1: day start + first_block_offset; 2: tolerance+1 s; k: (k-2)*4 h; last: 23:55", "ifaces": w.ifaces, "days": w.dayTS}
+		conc := map[string]any{"tolerance_s": w.tol, "first_block_offset_s": w.jitter, "last_slot": w.last, "twin_payloads": w.twin, "idle_slot_3": w.idle, "slot_positions": "1: day start + first_block_offset; 2: tolerance+1 s; k: (k-2)*4 h; last: 23:55", "ifaces": w.ifaces, "days": w.dayTS}
 		if verbose {
 			o.Emit(map[string]any{"verbose": true, "got": got, "concretisation": conc})
 		}
